@@ -55,7 +55,7 @@ static inline void gen_partition(Tape &t, unsigned n, R L, std::vector<MfSet> &o
         R c = n > 1 ? -L + step * k : 0;
         R w = step * wide;
         MfSet s{};
-        unsigned fam = family == 3 ? t.u8() % 10 : family;
+        unsigned fam = family == 3 ? t.u8() % 12 : family;
         bool first = k == 0, last = k + 1 == n;
         switch (fam)
         {
@@ -86,6 +86,15 @@ static inline void gen_partition(Tape &t, unsigned n, R L, std::vector<MfSet> &o
             if (first) { s.type = A_MF_Z; s.par[0] = c; s.par[1] = c + w; }
             else if (last) { s.type = A_MF_S; s.par[0] = c - w; s.par[1] = c; }
             else { s.type = A_MF_PI; s.par[0] = c - w; s.par[1] = c - w / 8; s.par[2] = c + w / 8; s.par[3] = c + w; }
+            break;
+        case 10:
+            // the one-sided shapes at ANY position of the table (the walk over the table has to step over each type correctly)
+            if (k & 1) { s.type = A_MF_LINS; s.par[0] = c - w; s.par[1] = c; }
+            else { s.type = A_MF_LINZ; s.par[0] = c; s.par[1] = c + w; }
+            break;
+        case 11:
+            if (k & 1) { s.type = A_MF_S; s.par[0] = c - w; s.par[1] = c; }
+            else { s.type = A_MF_Z; s.par[0] = c; s.par[1] = c + w; }
             break;
         case 6:
             s.type = A_MF_GAUSS2;
